@@ -18,7 +18,7 @@ META = {
                    "(4) the SVD wrapper returns factors of its argument in both orientation branches; (5) core/remainder "
                    "shapes are typed by the contraction checker (E5 obligations).",
     "assumptions": ["accuracy of torch.linalg.svd / numpy.linalg.svd", "floating-point roundoff is outside the claim"],
-    "floors": {"NARROW": 8, "E4-ALLOWANCE": 1, "E4-EPSFLOW": 5, "CMP-TOTAL": 1, "RANK-CAP": 4, "SVD-WRAP": 2},
+    "floors": {"NARROW": 8, "E4-ALLOWANCE": 1, "E4-EPSFLOW": 3, "CMP-TOTAL": 1, "RANK-CAP": 3, "SVD-WRAP": 2},
 }
 ANCHORS = ["_decomposition.to_tt", "_decomposition.mat_to_tt", "_decomposition.rank_chop", "_decomposition.SVD",
            "_tt_base.TT.__init__"]
